@@ -429,9 +429,10 @@ def run_property(pid, tier, seed):
                 if rbin is None:
                     raise Undecided("replay crate does not build against this tree (needed for the bounded stand-in): " + err[-300:])
             budget = 20000 if tier == "thorough" else 3000
-            if mode in ("cli", "cliorder", "climodel"):
+            if mode in ("cli", "cliorder", "climodel", "clitable"):
                 from . import clisweep
-                foundin, checked, cerr = {"cli": clisweep.sweep, "cliorder": clisweep.sweep_order, "climodel": clisweep.sweep_model}[mode](REPO, budget, seed)
+                foundin, checked, cerr = {"cli": clisweep.sweep, "cliorder": clisweep.sweep_order, "climodel": clisweep.sweep_model,
+                                          "clitable": clisweep.sweep_table}[mode](REPO, budget, seed)
                 if cerr:
                     raise Undecided("the rsbdd binary does not build from this tree (needed for the bounded CLI stand-in): " + cerr[-300:])
                 standins.append({"mode": mode, "label": "bounded - not counted as proved", "budget": budget, "seed": seed, "cases_checked": checked,
@@ -439,6 +440,8 @@ def run_property(pid, tier, seed):
                                            if mode == "cli" else
                                            "real binary, 21 formulas x {-m -t, -m -t -f true}: exactly one satisfying row for a satisfiable formula, none otherwise, and the row satisfies the formula"
                                            if mode == "climodel" else
+                                           "real binary, 36 formulas (incl. bound-before-free names, shadowing, fixed points, extreme constants) x {-t, -t -f true/false/any, -v} against the replay crate's independent evaluator: columns = the free variables; disjoint rows with the right result on every covered assignment; coverage = all / satisfying / falsifying assignments per filter; -v = exactly the satisfying assignments over free names"
+                                           if mode == "clitable" else
                                            "real binary, 12 formulas x 10 ordering files (permutations, subsets, supersets with unused names, duplicates, punctuation, comments): same satisfying assignments of the same names as the default order; listed variables in file order; -r export fed back with -o reproduces the identical table"),
                                  "failing_input": foundin})
                 if foundin is not None:
@@ -729,20 +732,35 @@ def last_resort_replay(pid, tier, seed, reason):
         return False
     kf = load_known_findings()
     budget = "20000" if tier == "thorough" else "3000"
-    for mode in PROP_MODES.get(pid, []):
-        try:
-            p = subprocess.run([rbin, "search", mode, budget, str(seed)], capture_output=True, text=True, timeout=600)
-        except subprocess.TimeoutExpired:
-            continue
-        line = (p.stdout.strip().split("\n") or [""])[-1]
-        if p.returncode != 1 or not line.startswith("{"):
-            continue
-        try:
-            d = json.loads(line)
-        except Exception:
-            continue
-        if d.get("case") is None:
-            continue
+    modes = list(PROP_MODES.get(pid, []))
+    try:
+        modes += [m for m in load_props().get(pid, {}).get("bounded", []) if m not in modes]
+    except Exception:
+        pass
+    for mode in modes:
+        if mode in ("cli", "cliorder", "climodel", "clitable"):
+            from . import clisweep
+            try:
+                d, _, cerr = {"cli": clisweep.sweep, "cliorder": clisweep.sweep_order, "climodel": clisweep.sweep_model,
+                              "clitable": clisweep.sweep_table}[mode](REPO, int(budget), seed)
+            except Exception:
+                continue
+            if d is None:
+                continue
+        else:
+            try:
+                p = subprocess.run([rbin, "search", mode, budget, str(seed)], capture_output=True, text=True, timeout=600)
+            except subprocess.TimeoutExpired:
+                continue
+            line = (p.stdout.strip().split("\n") or [""])[-1]
+            if p.returncode != 1 or not line.startswith("{"):
+                continue
+            try:
+                d = json.loads(line)
+            except Exception:
+                continue
+            if d.get("case") is None:
+                continue
         tag = f"{pid}::unit-not-verifiable"
         known = [k for k in kf.get("findings", []) if k.get("status") == "known" and k.get("property") == pid
                  and k.get("site") == f"{d['mode']}:{d['case']}"]
